@@ -98,8 +98,8 @@ out += ["", "Changes that were missed at first and what was strengthened:", "",
         "  `C06_r5m2` (end trim taken from the front when the only granule position is on the final packet: a third of the C06 decodes use that convention and the last 2048 samples are judged on their own).",
         "  Not detected by any check: `C18_r5m2` (uninitialised lap buffer for a time-based lapped seek from an unprimed handle at the end of the data - the pipeline added for it does not reach the state), `C19_r5m1` (lap data",
         "  from the wrong place when the old handle sits at the end of a trimmed stream - C19 does not judge the lapped region's content for old positions at the end of the stream, where 'the audio that would have been read next'",
-        "  is the decoder's hidden tail), `C03_r5m2` (endless discard loop in `ov_pcm_seek` on a phantom tail followed by an undecodable link; undecodable links and overstated final granule positions were added to C03, the",
-        "  combination did not come up in a quick run). `C15_r5m2` is outside the property as stated (section 13).",
+        "  is the decoder's hidden tail). `C03_r5m2` (endless discard loop in `ov_pcm_seek` on a phantom tail followed by an undecodable link) needed undecodable links and overstated final granule positions in C03; the",
+        "  combination comes up in the thorough tier (reported there as `crash:cpu-budget:during pcm_seek`), not in a quick run. `C15_r5m2` is outside the property as stated (section 13).",
         "<!-- AUTOGEN-END -->"]
 p = os.path.join(V, 'DESIGN.md')
 s = open(p).read()
